@@ -118,7 +118,15 @@ def rule_find(model, rep):
     rep.check(returns(fn) == ["cls.from_source(source).match(token, **kwds)"], R, site("TOTP.verify"), "; ".join(returns(fn)), "verify() = from_source(source).match(token, **kwds)")
 
 
+from . import c13 as _c13  # noqa: E402
+from .shared import Renamed as _Renamed  # noqa: E402
+
+
 def run(model, rep):
     rep.explanation = __doc__
     rule_match(model, rep)
     rule_find(model, rep)
+    # the window is counted in time steps: the counter the match starts from is floor(time / period) in integer arithmetic
+    _c13.rule_time(model, _Renamed(rep, {"C13.b": "C14.c-time-to-counter"}, "C14.x-"))
+    # ... and the candidate a token is compared with is produced by the RFC 4226 kernel from that counter
+    _c13.rule_kernel(model, _Renamed(rep, {"C13.a": "C14.d-token-kernel"}, "C14.x-"))
